@@ -187,7 +187,8 @@ def AssetClass.label : AssetClass → Res Unit
   | _ => .ok ()
 
 /-- the derived LP symbol `uLP-<first 8 chars of label>` is a valid cw20 symbol; for a token-factory
-    asset it is `uLP-factory/` which cw20-base refuses -/
+    asset it is `uLP-factory/` which the stock cw20-base refuses (the LP-token code id is a parameter of
+    `instantiate` / of the vault factory: `lenient = true` below means a code that accepts any symbol) -/
 def AssetClass.lpSymbolOk : AssetClass → Bool
   | .factory => false
   | _ => true
@@ -199,7 +200,8 @@ structure VaultCfg where
 deriving DecidableEq, Repr
 
 /-- vault `instantiate` (default build: the LP token is always a cw20) -/
-def vaultInstantiate (via : Bool) (fees : Fees3) (asset : AssetClass) (tokenFactoryLp : Bool) : Res VaultCfg :=
+def vaultInstantiate (via : Bool) (fees : Fees3) (asset : AssetClass) (tokenFactoryLp : Bool)
+    (lenient : Bool := false) : Res VaultCfg :=
   if asset.codeSaysFactory && decide (fees.c > 0) then .err
   else
     match fees3IsValid fees with
@@ -207,7 +209,8 @@ def vaultInstantiate (via : Bool) (fees : Fees3) (asset : AssetClass) (tokenFact
       if tokenFactoryLp then .err
       else
         match asset.label with
-        | .ok () => if asset.lpSymbolOk then .ok { fees := fees, asset := asset, viaFactory := via } else .err
+        | .ok () =>
+          if asset.lpSymbolOk || lenient then .ok { fees := fees, asset := asset, viaFactory := via } else .err
         | .err => .err
         | .panic => .panic
     | .err => .err
@@ -215,22 +218,28 @@ def vaultInstantiate (via : Bool) (fees : Fees3) (asset : AssetClass) (tokenFact
 
 /-- vault factory `create_vault`: checks two of the three fees (`flash_loan_fee`, `protocol_fee`),
     computes the label, instantiates -/
-def vaultCreate (fees : Fees3) (asset : AssetClass) (tokenFactoryLp : Bool) : Res VaultCfg :=
+def vaultCreate (fees : Fees3) (asset : AssetClass) (tokenFactoryLp : Bool) (lenient : Bool := false) :
+    Res VaultCfg :=
   if fees.b ≥ E18 then .err
   else if fees.a ≥ E18 then .err
   else
     match asset.label with
-    | .ok () => vaultInstantiate true fees asset tokenFactoryLp
+    | .ok () => vaultInstantiate true fees asset tokenFactoryLp lenient
     | .err => .err
     | .panic => .panic
 
 /-- vault `update_config` (direct or via the factory's `UpdateVaultConfig`).  The burn-fee rule is
-    tested against the *LP* asset, which is a cw20 in the default build, so it never fires. -/
+    tested against the vault's asset and the *LP* asset (a cw20 in the default build, so only the
+    former matters) — since fix 074ebd5; before it only the LP asset was tested and a burn fee could be
+    stored on a vault over a token-factory asset. -/
 def vaultUpdate (via : Bool) (v : VaultCfg) (fees : Option Fees3) : Res VaultCfg :=
   if via ≠ v.viaFactory then .err
   else
     match applyFees v.fees fees with
-    | .ok f => .ok { v with fees := f }
+    | .ok f =>
+      match fees with
+      | none => .ok { v with fees := f }
+      | some nf => if v.asset.codeSaysFactory && decide (nf.c > 0) then .err else .ok { v with fees := f }
     | .err => .err
     | .panic => .panic
 
@@ -274,12 +283,14 @@ def growthValid (r : Nat) : Bool := !(decide (r > E18))
 
 /-- lair `instantiate`: `n` bonding assets, `hasCw20` = one of them is a cw20 token.  With no bonding
     asset the response carries the attribute `bonding_assets = ""`, and an empty attribute value makes
-    the (cw-multi-test 0.16) chain reject the transaction. -/
-def lairInstantiate (growth n : Nat) (hasCw20 : Bool) : Res LairCfg :=
+    the (cw-multi-test 0.16) chain reject the transaction: `strictAttrs = true`.  Called at entry-point
+    level (or on a chain that admits empty attribute values) the empty list is accepted:
+    `strictAttrs = false`. -/
+def lairInstantiate (growth n : Nat) (hasCw20 : Bool) (strictAttrs : Bool := true) : Res LairCfg :=
   if n > Gen.LAIR_BONDING_ASSETS_LIMIT then .err
   else if growthValid growth = false then .err
   else if hasCw20 then .err
-  else if n = 0 then .err
+  else if n = 0 && strictAttrs then .err
   else .ok { growth := growth, nAssets := n }
 
 /-- lair `update_config` (the bonding assets cannot be changed after instantiation) -/
@@ -318,11 +329,11 @@ inductive Op where
   | pairUpd (via : Bool) (i : Nat) (fees : Option Fees3)
   | trioInst (via : Bool) (fees : Fees3) (amp : Nat) (tf : Bool)
   | trioUpd (via : Bool) (i : Nat) (fees : Option Fees3) (ramp : Option (Nat × Nat))
-  | vaultInst (via : Bool) (fees : Fees3) (asset : AssetClass) (tf : Bool)
+  | vaultInst (via : Bool) (fees : Fees3) (asset : AssetClass) (tf : Bool) (lenient : Bool := false)
   | vaultUpd (via : Bool) (i : Nat) (fees : Option Fees3)
   | distInst (grace dur : Nat)
   | distUpd (grace dur : Option Nat)
-  | lairInst (growth n : Nat) (hasCw20 : Bool)
+  | lairInst (growth n : Nat) (hasCw20 : Bool) (strictAttrs : Bool := true)
   | lairUpd (growth : Option Nat)
   | collInst
   | collUpd (take : Option Nat)
@@ -360,8 +371,8 @@ def step (c : Cfg) : Op → Res Cfg
     | .ok ts => .ok { c with trios := ts }
     | .err => .err
     | .panic => .panic
-  | .vaultInst via fees asset tf =>
-    match (if via then vaultCreate fees asset tf else vaultInstantiate false fees asset tf) with
+  | .vaultInst via fees asset tf lenient =>
+    match (if via then vaultCreate fees asset tf lenient else vaultInstantiate false fees asset tf lenient) with
     | .ok v => .ok { c with vaults := c.vaults ++ [v] }
     | .err => .err
     | .panic => .panic
@@ -383,8 +394,8 @@ def step (c : Cfg) : Op → Res Cfg
       | .ok y => .ok { c with dist := some y }
       | .err => .err
       | .panic => .panic
-  | .lairInst r n k =>
-    match lairInstantiate r n k with
+  | .lairInst r n k strict =>
+    match lairInstantiate r n k strict with
     | .ok x => .ok { c with lair := some x }
     | .err => .err
     | .panic => .panic
